@@ -1,4 +1,4 @@
-package pogreb
+package fs
 
 // Harness prelude. The SSAX engine intercepts every v* function below; the
 // bodies here are the *native* semantics used when a solver counterexample is
